@@ -147,7 +147,7 @@ Qed.
 Lemma covers_rds R xs : (forall l, In l R -> In (fst l) xs) -> covers (rds R) (map rdk xs).
 Proof.
   intro H. split; intros l Hl.
-  - rewrite reads_rds' in Hl. apply (in_map rdk) in H; [exact H | exact Hl].
+  - rewrite reads_rds' in Hl. apply H in Hl. apply (in_map rdk) in Hl. exact Hl.
   - rewrite writes_rds' in Hl. destruct Hl.
 Qed.
 
